@@ -189,6 +189,10 @@ theorem evm_calldatasize (hop : (f.code[f.pc]?).getD 0 = 0x36) (hl : ¬ f.stack.
     Evm.step p w f = .next w (Evm.push f f.calldata.length) := by
   unfold Evm.step; simp only [hop, hl, ↓reduceIte]
 
+theorem evm_codesize (hop : (f.code[f.pc]?).getD 0 = 0x38) (hl : ¬ f.stack.length > 1024) :
+    Evm.step p w f = .next w (Evm.push f f.code.length) := by
+  unfold Evm.step; simp only [hop, hl, ↓reduceIte]
+
 theorem evm_calldataload (hop : (f.code[f.pc]?).getD 0 = 0x35) (hl : ¬ f.stack.length > 1024) :
     Evm.step p w f = Evm.op1 w f fun off => Evm.bytesToNat (Evm.readBytes f.calldata off 32) := by
   unfold Evm.step; simp only [hop, hl, ↓reduceIte]
